@@ -135,6 +135,69 @@ Fixpoint guarded (fuel : nat) (f : sfile) (ops : list fop) : bool :=
       end
   end.
 
+(* (3) the seven known-finding shapes, and everything else.
+   A shape is recognised on the state the call meets (exactly what harness/c27.py does on the real
+   object): it is the FIRST of the following that occurs in a program
+     KBareX            the file was opened with the bare mode "x"
+     KReadPending      read / readline / readlines with data pending in the write buffer
+     KTellPending      tell with data pending in the write buffer
+     KWriteAfterRead   write with read-ahead left in the read buffer
+     KTruncReadOnly    truncate on a file that is not writable
+     KTruncPending     truncate with data pending in the write buffer
+     KStaleAfterTrunc  any call after a truncate
+   `first_finding` returns it, or None; `no_finding_shape` = there is none. *)
+Inductive finding :=
+  | KBareX | KReadPending | KTellPending | KWriteAfterRead | KTruncPending | KTruncReadOnly
+  | KStaleAfterTrunc.
+
+Definition finding_code (k : option finding) : Z :=
+  match k with
+  | None => 0 | Some KBareX => 1 | Some KReadPending => 2 | Some KTellPending => 3
+  | Some KWriteAfterRead => 4 | Some KTruncPending => 5 | Some KTruncReadOnly => 6
+  | Some KStaleAfterTrunc => 7
+  end.
+
+Definition finding_at (f : sfile) (o : fop) : option finding :=
+  match o with
+  | FRead _ | FReadline _ | FReadlines => if is_nil (wbuf f) then None else Some KReadPending
+  | FTell => if is_nil (wbuf f) then None else Some KTellPending
+  | FWrite _ => if is_nil (rbuf f) then None else Some KWriteAfterRead
+  | FTruncate _ => if negb (fl_write f) then Some KTruncReadOnly
+                   else if is_nil (wbuf f) then None else Some KTruncPending
+  | FSeek _ _ | FFlush => None
+  end.
+
+Fixpoint first_finding_from (fuel : nat) (f : sfile) (ops : list fop) : option finding :=
+  match ops with
+  | [] => None
+  | o :: r =>
+      match finding_at f o with
+      | Some k => Some k
+      | None =>
+          match o, r with
+          | FTruncate _, _ :: _ => Some KStaleAfterTrunc
+          | _, _ => first_finding_from fuel (snd (sf_step fuel f o)) r
+          end
+      end
+  end.
+
+Definition first_finding (m : fmode) (fuel : nat) (f : sfile) (ops : list fop) : option finding :=
+  match m with Mxbare => Some KBareX | _ => first_finding_from fuel f ops end.
+
+Definition no_finding_shape (m : fmode) (fuel : nat) (f : sfile) (ops : list fop) : bool :=
+  match first_finding m fuel f ops with None => true | Some _ => false end.
+
+(* `fuel` bounds the loops of the model (a model artefact): this says it is large enough at every
+   call of the run and for the final flush of close() *)
+Fixpoint fuel_suffices (fuel : nat) (f : sfile) (ops : list fop) : bool :=
+  match ops with
+  | [] => Nat.ltb (length (wbuf f)) fuel
+  | o :: r =>
+      Nat.ltb (length (s_content (strm f)) + length (wbuf f)
+               + match o with FWrite d => length d | _ => O end) fuel &&
+      fuel_suffices fuel (snd (sf_step fuel f o)) r
+  end.
+
 (* ---- correspondence ---------------------------------------------------------------------- *)
 Definition op_fuel (ops : list fop) : nat :=
   fold_right (fun o a => match o with FWrite d => length d + a
@@ -160,4 +223,13 @@ Definition run_c27_guard (c : Z * Z * (bool * list Z) * list fop) : list Z :=
   match sf_open (fmode_of k) bufsz (if ex then Some init else None) with
   | None => [-9]
   | Some f0 => [if guarded (length init + op_fuel ops + 4)%nat f0 ops then 1 else 0]
+  end.
+
+(* which finding shape (0 = none, 1..7) does the program show first?  [-9] = open raises *)
+Definition run_c27_shape (c : Z * Z * (bool * list Z) * list fop) : list Z :=
+  let '(k, bufsz, (ex, init), ops) := c in
+  match sf_open (fmode_of k) bufsz (if ex then Some init else None) with
+  | None => [-9]
+  | Some f0 => [finding_code (first_finding (fmode_of k) (length init + op_fuel ops + 4)%nat f0 ops);
+                if fuel_suffices (length init + op_fuel ops + 4)%nat f0 ops then 1 else 0]
   end.
